@@ -148,6 +148,12 @@ TExecRet == /\ Ev.e = "ExecRet" /\ xst' = [xst EXCEPT ![Ev.x] = "returned"]
             /\ xobs' = [xobs EXCEPT ![Ev.x].same = Ev.same]
             /\ UNCHANGED <<phase, guard, pst, starts, endhow, cleanleft, adoptret, sigint, shut, result, h, where, segopen, marks>>
             /\ nc' = (nc \/ ~ExecRet(Ev.x))
+\* a blocking execute() of a coroutine payload issued from inside a payload of the SAME
+\* flavour cannot be served (its own loop thread would have to wait for itself): the framework
+\* refuses it with an exception and the payload is never started
+TExecRefused == /\ Ev.e = "ExecRefused" /\ xst' = [xst EXCEPT ![Ev.x] = "returned"]
+                /\ UNCHANGED <<phase, guard, pst, starts, endhow, cleanleft, adoptret, sigint, shut, result, h, where, xobs, segopen, marks>>
+                /\ nc' = (nc \/ xst[Ev.x] # "called")
 TSeg == /\ Ev.e \in {"SegEnter", "SegExit"}
         /\ segopen' = [segopen EXCEPT ![Ev.flavour] = IF Ev.e = "SegEnter" THEN @ + 1 ELSE (IF @ > 0 THEN @ - 1 ELSE 0)]
         /\ h' = [h EXCEPT !.overlap = @ \/ (Ev.e = "SegEnter" /\ Ev.flavour # "threading" /\ segopen[Ev.flavour] > 0)]
@@ -175,7 +181,7 @@ TMark == /\ Ev.e \in {"Quiescent", "Timeout", "Block", "CleanupDone"}
 
 TraceNext == Step_ /\ (TAdoptCall \/ TAdoptRet \/ TSvcNew \/ TStart \/ TStep \/ TEnd \/ TCancelled \/ TCleanupStep
                        \/ TAcceptCall \/ TRunningSet \/ TCloseBegin \/ TCloseEnd \/ TAcceptRet \/ TSigint
-                       \/ TShutdownCall \/ TShutdownRet \/ TExecCall \/ TXStart \/ TXEnd \/ TExecRet \/ TSeg \/ TMark)
+                       \/ TShutdownCall \/ TShutdownRet \/ TExecCall \/ TXStart \/ TXEnd \/ TExecRet \/ TExecRefused \/ TSeg \/ TMark)
 TraceSpec == TraceInit /\ [][TraceNext]_tvars
 
 -----------------------------------------------------------------------------
